@@ -467,6 +467,8 @@ enum Seg {
     Id(usize, Role, bool),
     /// number hole of n digits for role r
     Num(usize, Role),
+    /// concrete identifier for role r (digit-only templates: every name is fixed, every number symbolic)
+    Fix(&'static [u8], Role),
 }
 
 #[derive(Clone, Copy, PartialEq)]
@@ -508,6 +510,18 @@ fn build<const S: usize>(segs: &[Seg; S]) -> Built {
     while s < S {
         match segs[s] {
             Seg::Lit(t) => {
+                let mut i = 0;
+                while i < t.len() {
+                    b.buf[b.len] = t[i];
+                    b.len += 1;
+                    i += 1;
+                }
+            }
+            Seg::Fix(t, r) => {
+                let r = r as usize;
+                b.off[r] = b.len;
+                b.n[r] = t.len();
+                b.present[r] = true;
                 let mut i = 0;
                 while i < t.len() {
                     b.buf[b.len] = t[i];
@@ -680,6 +694,13 @@ c05!(c05_method_range, 26, c05_wellformed([Lit(b"    "), Num(2, Start), Lit(b":"
 c05!(c05_method_range_os, 30, c05_wellformed([Lit(b"    "), Num(2, Start), Lit(b":"), Num(1, End), Lit(b":"), Id(1, Ty, false), Lit(b" "), Id(2, OClass, false), Lit(b"."), Id(1, Orig, false), Lit(b"("), Id(0, Args, false), Lit(b"):"), Num(2, OStart), Lit(b" -> "), Id(1, Obf, false), Lit(b"\r\n")], 3, 2));
 c05!(c05_method_range_os_oe, 32, c05_wellformed([Lit(b"    "), Num(1, Start), Lit(b":"), Num(2, End), Lit(b":"), Id(1, Ty, false), Lit(b" "), Id(1, Orig, false), Lit(b"("), Id(1, Args, false), Lit(b"):"), Num(2, OStart), Lit(b":"), Num(3, OEnd), Lit(b" -> "), Id(1, Obf, false), Lit(b"\n\n")], 3, 2));
 c05!(c05_method_norange_os, 23, c05_wellformed([Lit(b"    "), Id(2, Ty, false), Lit(b" "), Id(1, Orig, false), Lit(b"("), Id(0, Args, false), Lit(b"):"), Num(2, OStart), Lit(b":"), Num(1, OEnd), Lit(b" -> "), Id(1, Obf, false)], 3, 0));
+// digit-only templates: names concrete, every digit of every number symbolic (usable-range rule, presence of
+// the original lines for every combination of optional parts)
+c05!(c05_digits_range, 24, c05_wellformed([Lit(b"    "), Num(2, Start), Lit(b":"), Num(2, End), Lit(b":"), Fix(b"v", Ty), Lit(b" "), Fix(b"m", Orig), Lit(b"("), Fix(b"", Args), Lit(b") -> "), Fix(b"a", Obf)], 3, 0));
+c05!(c05_digits_range_os, 26, c05_wellformed([Lit(b"    "), Num(1, Start), Lit(b":"), Num(2, End), Lit(b":"), Fix(b"v", Ty), Lit(b" "), Fix(b"m", Orig), Lit(b"("), Fix(b"", Args), Lit(b"):"), Num(2, OStart), Lit(b" -> "), Fix(b"a", Obf), Lit(b"\n")], 3, 1));
+c05!(c05_digits_range_os_oe, 28, c05_wellformed([Lit(b"    "), Num(1, Start), Lit(b":"), Num(1, End), Lit(b":"), Fix(b"v", Ty), Lit(b" "), Fix(b"m", Orig), Lit(b"("), Fix(b"I", Args), Lit(b"):"), Num(2, OStart), Lit(b":"), Num(2, OEnd), Lit(b" -> "), Fix(b"a", Obf)], 3, 0));
+c05!(c05_digits_norange_os_oe, 24, c05_wellformed([Lit(b"    "), Fix(b"v", Ty), Lit(b" "), Fix(b"m", Orig), Lit(b"("), Fix(b"", Args), Lit(b"):"), Num(2, OStart), Lit(b":"), Num(2, OEnd), Lit(b" -> "), Fix(b"a", Obf)], 3, 0));
+c05!(c05_digits_norange_os, 20, c05_wellformed([Lit(b"    "), Fix(b"v", Ty), Lit(b" "), Fix(b"m", Orig), Lit(b"("), Fix(b"", Args), Lit(b"):"), Num(2, OStart), Lit(b" -> "), Fix(b"a", Obf)], 3, 0));
 c05!(c05_bad_unspaced_arrow, 12, c05_malformed([Id(2, Orig, false), Lit(b"->"), Id(2, Obf, false), Lit(b":\n"), Lit(b"x")], 8));
 c05!(c05_bad_class_no_colon, 13, c05_malformed([Id(2, Orig, false), Lit(b" -> "), Id(2, Obf, false), Lit(b"\n"), Lit(b"x")], 9));
 c05!(c05_bad_indent2, 16, c05_malformed([Lit(b"  "), Id(2, Ty, false), Lit(b" "), Id(2, Orig, false), Lit(b" -> "), Id(1, Obf, false), Lit(b"\n")], 13));
